@@ -53,6 +53,13 @@ impl<A: Send + 'static> StreamWeakForwardRef<A> {
         let x = self.data.read();
         x.clone().unwrap().upgrade().unwrap()
     }
+
+    /// The stream, unless every handle to it has been dropped already (its node can outlive it
+    /// until the next cycle collection when other nodes' closures hold the bare node).
+    pub fn upgrade(&self) -> Option<Stream<A>> {
+        let x = self.data.read();
+        x.clone().and_then(|s| s.upgrade())
+    }
 }
 
 pub struct Stream<A> {
@@ -132,11 +139,13 @@ impl<
             let sodium_ctx = sodium_ctx.clone();
             let ss = StreamSink::downgrade(&ss);
             let listener = self.listen_weak(move |collection: &COLLECTION| {
-                let ss = ss.upgrade().unwrap();
-                let iter = collection.clone().into_iter();
-                for a in iter {
-                    let ss = ss.clone();
-                    sodium_ctx.post(move || ss.send(a.clone()))
+                // the output may have been dropped already (this listener lives until the next collection)
+                if let Some(ss) = ss.upgrade() {
+                    let iter = collection.clone().into_iter();
+                    for a in iter {
+                        let ss = ss.clone();
+                        sodium_ctx.post(move || ss.send(a.clone()))
+                    }
                 }
             });
             s.add_keep_alive(&listener.gc_node);
@@ -427,9 +436,11 @@ impl<A: Send + 'static> Stream<A> {
             let sodium_ctx = sodium_ctx.clone();
             let ss = StreamSink::downgrade(&ss);
             let listener = self.listen_weak(move |a: &A| {
-                let ss = ss.upgrade().unwrap();
-                let a = a.clone();
-                sodium_ctx.post(move || ss.send(a.clone()))
+                // the output may have been dropped already (this listener lives until the next collection)
+                if let Some(ss) = ss.upgrade() {
+                    let a = a.clone();
+                    sodium_ctx.post(move || ss.send(a.clone()))
+                }
             });
             s.add_keep_alive(&listener.gc_node);
             s
